@@ -14,7 +14,6 @@ KNOWN = {
     "C15": [
         ("C15-P-row-continued-by-nulls-only", re.compile(r"^assemble\.step\[rep=0,first_row_of_page,after_continuation_of_nulls_only\]\.rows_match_spec")),
         ("C15-P-continuation-only-page-row-index", re.compile(r"^assemble\.exit\[continuation_only_page\]\.returns_index_of_last_row_started")),
-        ("C15-P-map-column-named-key", re.compile(r"^map_zip\.rows_are_dicts_of_key_and_value_rows\[column_named_key\]")),
         ("C15-P-v2-null-hard-coded", re.compile(r"^read_data_page_v2\.assemble\.null_iff_outer_optional\[outer_required\]")),
         ("C15-P-v2-defi-unbound", re.compile(r"^read_data_page_v2\.assemble\.defi_levels_were_read\[page_without_nulls\]")),
         ("C15-P-v2-no-assembly-unless-dictionary", re.compile(r"^read_data_page_v2\.repeated_column_is_assembled\[(PLAIN|RLE|DELTA_BINARY_PACKED)\]")),
